@@ -140,7 +140,18 @@ def single_defs(fn):
                     bump(i.optional_vars)
         elif isinstance(n, ast.NamedExpr):
             bump(n.target)
-    return {k: v for k, v in val.items() if count.get(k) == 1}
+    # a name whose object is mutated in place after its definition does not denote its defining expression
+    mutated = set()
+    for n in walk_own(fn):
+        if isinstance(n, (ast.Assign, ast.AugAssign)):
+            for t in (n.targets if isinstance(n, ast.Assign) else [n.target]):
+                for tt in (t.elts if isinstance(t, (ast.Tuple, ast.List)) else [t]):
+                    if isinstance(tt, ast.Subscript) and isinstance(tt.value, ast.Name):
+                        mutated.add(tt.value.id)
+        elif isinstance(n, ast.Call) and isinstance(n.func, ast.Attribute) and isinstance(n.func.value, ast.Name) \
+                and n.func.attr in ("append", "extend", "update", "add", "insert", "pop", "remove", "clear", "fill", "sort", "setdefault"):
+            mutated.add(n.func.value.id)
+    return {k: v for k, v in val.items() if count.get(k) == 1 and k not in mutated}
 
 
 def inline(e, env, depth=12):
